@@ -253,6 +253,13 @@ func opMergeSelf(a int) storeOp {
 		real: func(st []store.Store, _ []Kind, _ bool) { st[a].MergeWith(st[a]) },
 		mod:  func(w *StoreWorld) { w.M[a].Scale(2) }}
 }
+
+// opProtoSelf: store.MergeWithProto(a, a.ToProto()) doubles every weight.
+func opProtoSelf(a int) storeOp {
+	return storeOp{name: fmt.Sprintf("store.MergeWithProto(%s, %s.ToProto())", slotName(a), slotName(a)), tag: "proto", writes: 1 << uint(a),
+		real: func(st []store.Store, _ []Kind, _ bool) { store.MergeWithProto(st[a], st[a].ToProto()) },
+		mod:  func(w *StoreWorld) { w.M[a].Scale(2) }}
+}
 func opCopy(a, b int) storeOp {
 	return storeOp{name: fmt.Sprintf("%s = %s.Copy()", slotName(a), slotName(b)), tag: "copy", writes: 1 << uint(a), slot: a, src: b,
 		real: func(st []store.Store, _ []Kind, _ bool) { st[a] = st[b].Copy() },
